@@ -634,11 +634,19 @@ class XsdElement(XsdComponent, ParticleMixin,
 
         context.elem = obj
 
+        outer_counters = None
         for identity in self.identities:
-            if identity in context.identities:
-                context.identities[identity].reset(obj)
-            else:
+            if identity not in context.identities:
                 context.identities[identity] = identity.get_counter(obj)
+            elif context.identities[identity].enabled:
+                # An instance of this declaration is in progress (recursive content):
+                # the identity constraint has another scope for the nested element.
+                if outer_counters is None:
+                    outer_counters = {}
+                outer_counters[identity] = context.identities[identity]
+                context.identities[identity] = identity.get_counter(obj)
+            else:
+                context.identities[identity].reset(obj)
 
         if not context.level:
             # Need to set converter context with the right object (the resource can be lazy)
@@ -890,6 +898,9 @@ class XsdElement(XsdComponent, ParticleMixin,
         elif context.level:
             for identity in self.identities:
                 context.identities[identity].enabled = False
+
+        if outer_counters is not None:
+            context.identities.update(outer_counters)
 
         return result
 
